@@ -7,12 +7,20 @@ def run(tier, seed):
     run = Run("C16", tier, seed)
     build_harness()
     th = tier == "thorough"
+    # the algorithm as coded (Cooper-Harvey-Kennedy), with every DFS order and every predecessor-set iteration order
+    d = os.path.join(SPEC, "algo")
+    base = open(os.path.join(d, "MCDomCHK.cfg")).read()
+    run.add_mc("DomCHK N=3 with loops (all DFS / fold orders, termination)", tlc("algo/DomCHK", "MCDomCHK.cfg", workers=6, timeout=900, tag="c16dom3"))
+    open(os.path.join(d, "out_MCDomCHK.cfg"), "w").write(base.replace("N = 3", "N = 4").replace("Loops = TRUE", "Loops = %s" % ("TRUE" if th else "FALSE")).replace("PROPERTY Terminates\n", "").replace("FairSpec", "Spec"))
+    run.add_mc("DomCHK N=4 %s" % ("with loops" if th else "without loops"), tlc("algo/DomCHK", "out_MCDomCHK.cfg", workers=10, timeout=2400, tag="c16dom4"))
+    os.remove(os.path.join(d, "out_MCDomCHK.cfg"))
     recs, matrix = sweep(run, "C16", seed, 3, 400 if th else 60, 7 if th else 6)
     run.extra["applicability_matrix"] = matrix
     mid = recs[len(recs) // 2]
     run.sample({k: mid[k] for k in list(mid)[:9]})
     judge(run, "C16", MODULE, recs, "C16 sweep")
-    run.assumptions = ["inputs: exhaustive small (multi)graphs with loops up to 3 nodes (sampled above 5000 codes), seeded random shapes up to nmax nodes, both edge types, every encoding x history the trait bounds admit (applicability_matrix)",
+    run.assumptions = ["DomCHK.tla is a transcription of simple_fast; it shows the algorithm correct for every digraph of the bound under every traversal and hash-set order, but it is bound to the code only through the oracle runs below",
+                       "inputs: exhaustive small (multi)graphs with loops up to 3 nodes (sampled above 5000 codes), seeded random shapes up to nmax nodes, both edge types, every encoding x history the trait bounds admit (applicability_matrix)",
                        "TLC evaluating the TLA+ definitions is the oracle; the harness maps node ids back to abstract ids; costs are small integers (floats exact)"]
     return run.finish()
 
